@@ -165,6 +165,81 @@ def _passes_other_cond(f, start, goal):
     return True
 
 
+def _report_faithful(db, rule, thorough):
+    import itertools
+    from engine.evalmini import Interp, Obj, OutOfFragment, NOT_HANDLED, enum_values
+    ft = db.fn(R + 'EchelonTuple::ToString', required=False)
+    fb = db.fn(R + 'EchelonBool::ToString', required=False)
+    if ft is None or fb is None:
+        rule.broken('anchor vanished: EchelonTuple::ToString / EchelonBool::ToString')
+        return
+    T = enum_values(db, R + 'TokenID')
+    SIGN = {T.get('DECART'): '\u00d7', T.get('BOOLEAN'): '\u212c'}
+    TY = R + 'Typification'
+
+    def mk(t):
+        if t[0] == 'base':
+            return Obj(__cls__=TY, kind='base', name=t[1])
+        if t[0] == 'bool':
+            return Obj(__cls__=TY, kind='bool', base=mk(t[1]))
+        return Obj(__cls__=TY, kind='tuple', factors=[mk(x) for x in t[1]])
+
+    def ref(t):
+        if t[0] == 'base':
+            return t[1]
+        if t[0] == 'bool':
+            return '\u212c' + (ref(t[1]) if t[1][0] == 'bool' else '(' + ref(t[1]) + ')')
+        return '\u00d7'.join('(' + ref(x) + ')' if x[0] == 'tuple' else ref(x) for x in t[1])
+
+    def show(it, o):
+        if o['kind'] == 'base':
+            return bytearray(o['name'].encode())
+        if o['kind'] == 'tuple':
+            return it.call(ft, [], Obj(__cls__=R + 'EchelonTuple', factors=o['factors']))
+        return it.call(fb, [], Obj(__cls__=R + 'EchelonBool', boolBase=('ptr', o['base'])))
+
+    def on_call(it, fn, n, env):
+        cs = n.get('cs') or ''
+        last = cs.split('::')[-1]
+        if cs == R + 'Token::Str' and n.get('args'):
+            v = it.eval(fn, fn.stmts[n['args'][0]], env)
+            if v in SIGN:
+                return bytearray(SIGN[v].encode())
+        if last in ('IsTuple', 'IsCollection', 'ToString') and 'obj' in n and not cs.startswith('std::'):
+            o = it.eval(fn, fn.stmts[n['obj']], env)
+            if isinstance(o, tuple) and len(o) == 2 and o[0] == 'ptr':
+                o = o[1]
+            if isinstance(o, Obj) and o.get('__cls__') == TY:
+                return o['kind'] == 'tuple' if last == 'IsTuple' else o['kind'] == 'bool' if last == 'IsCollection' else show(it, o)
+        return NOT_HANDLED
+    bases = [('base', 'X1'), ('base', 'Z')]
+    lv = [list(bases)]
+    for d in range(2 if not thorough else 3):
+        prev = [t for l in lv for t in l]
+        small = prev if len(prev) <= 20 else prev[:20]
+        new = [('bool', t) for t in prev if ('bool', t) not in prev]
+        new += [('tuple', list(c)) for k in (2, 3) for c in itertools.product(small if k == 3 else prev[:60], repeat=k) if ('tuple', list(c)) not in prev]
+        lv.append(new)
+    types = [t for l in lv for t in l]
+    bad, seen, cases = None, {}, 0
+    try:
+        it = Interp(db, on_call=on_call, max_steps=10 ** 9)
+        for t in types:
+            got = bytes(show(it, mk(t))).decode('utf-8', 'replace')
+            cases += 1
+            if got != ref(t) and bad is None:
+                bad = 'the typification %s is reported as "%s"%s' % (ref(t), got, ': the same text as the different typification %s' % got if got in seen and seen[got] != t else '')
+            seen.setdefault(got, t)
+    except OutOfFragment as e:
+        rule.broken('typification printing outside the evaluable fragment: %s' % e)
+        return
+    if bad:
+        rule.violation('ToString', '%s:%d' % (ft.file, ft.line), bad)
+    else:
+        rule.ok('ToString:notation', '%d typifications printed in the conventional notation' % cases, '%s:%d' % (ft.file, ft.line))
+        rule.ok('ToString:injective', '%d distinct texts for %d distinct typifications' % (len(seen), cases), '%s:%d' % (fb.file, fb.line))
+
+
 def check(db, rep):
     rep.explanation = ('Reject => critical error as a whole-program loudness fixpoint over the auditors (every refusing return is reported or propagates a loud callee), '
                        'error positions rooted at the visited node, scope pairing, result plumbing and the constituent-kind tables. The typing rules themselves are not decided.')
@@ -395,6 +470,8 @@ def _rest(db, rep):
     r8 = rep.rule('r8', 'TYPE-ALGEBRA: Merge is the least upper bound of the specificity order, AreCompatible its existence, CompareTemplated binds every radical to the least upper bound of its arguments', 3)
     type_algebra(db, r8)
 
+    r10 = rep.rule('r10', 'REPORT-FAITHFUL: the text in which a typification is reported (EchelonTuple::ToString / EchelonBool::ToString, interpreted from their source on every typification of depth up to three) is the conventional notation - factors joined by the product sign with every factor that is itself a product in brackets, the power-set sign before a bracketed base or directly before another power set - so two different typifications are never reported with the same text', 2)
+    _report_faithful(db, r10, rep.tier == 'thorough')
     r9 = rep.rule('r9', 'TYPING-RULES: each set-theoretic construct, evaluated over all operand-type vectors of a universe of typifications, accepts exactly the well-typed ones, reports the rule\'s type and blames the offending operand', 14)
     rep.note('typing_rule_cases', typing_rules(db, r9, rep.tier if hasattr(rep, 'tier') else 'quick'))
     recursion_typing(db, r9)
